@@ -194,6 +194,7 @@ def run(res: Results, idx: Index, tier: str) -> None:
             res.ok("R-C05c", f"{UI}:{gd.lineno}", key, f"`if {src(gd.test, 60)}: raise` precedes rename_values on every path", f.qualname)
         else:
             res.violation("R-C05c", f"{UI}:{gd.lineno}", key, f"rename_values can be reached without passing `if {src(gd.test, 60)}: raise`", f.qualname)
+    rule_collision_universe(res, idx)
     # to_onnx: collisions raise before the converter call
     t = idx.func(UI, "to_onnx")
     gt = cfg_of(t.node)
@@ -222,3 +223,35 @@ def run(res: Results, idx: Index, tier: str) -> None:
 
 def _descend(body: List[ast.stmt]) -> List[ast.AST]:
     return [x for st in body for x in ast.walk(st)]
+
+
+def rule_collision_universe(res: Results, idx: Index) -> None:
+    """The name-collision check must see every named value of the top graph (intermediate node outputs too):
+    follow the `collisions` guard back to the function that enumerates the occupied names."""
+    f = idx.func(UI, "_apply_custom_io_names_on_ir")
+    du = defuse(f.node)
+    key = f"{UI}::_apply_custom_io_names_on_ir::collision-universe"
+    providers = []
+    for nm in du.closure({"collisions"}) | {"collisions"}:
+        for v in du.values(nm):
+            for c in ast.walk(v):
+                if isinstance(c, ast.Call):
+                    g = idx.resolve_func(idx.module(UI), call_name(c) or "", scope=f)
+                    if g is not None and g.module.rel == UI and g.node is not f.node and any(a.arg == "graph" for a in g.node.args.args):
+                        providers.append(g)
+    if not providers:
+        res.unresolved("R-C05c", f"{UI}:{f.node.lineno}", key, "the enumeration of occupied names was not found", f.qualname)
+        return
+    ok = False
+    why = ""
+    for g in providers:
+        txt_calls = [call_name(c) or "" for c in ast.walk(g.node) if isinstance(c, ast.Call)]
+        walks_nodes = any(isinstance(n, ast.For) and isinstance(n.iter, ast.Name) and n.iter.id == "graph" for n in ast.walk(g.node)) and any(isinstance(x, ast.Attribute) and x.attr == "outputs" and not (isinstance(x.value, ast.Name) and x.value.id == "graph") for x in ast.walk(g.node))
+        if any(c.endswith("create_value_mapping") for c in txt_calls) or walks_nodes:
+            ok = True
+        else:
+            why = f"{g.qualname}() enumerates only " + ", ".join(sorted({x.attr for x in ast.walk(g.node) if isinstance(x, ast.Attribute) and isinstance(x.value, ast.Name) and x.value.id == "graph"}))
+    if ok:
+        res.ok("R-C05c", f"{UI}:{providers[0].node.lineno}", key, "occupied names come from a mapping over every named value of the top graph", f.qualname)
+    else:
+        res.violation("R-C05c", f"{UI}:{providers[0].node.lineno}", key, f"the collision check does not see intermediate value names ({why}): a custom input/output name equal to a node output's name defines that name twice", f.qualname)
